@@ -294,9 +294,12 @@ def reference(fn_plain, first_obj, args, kwargs, in_specs, options, out_specs,
             rejects.append(r.errors)
     if rejects:
         # which of several invalid inputs is reported first is not documented
+        # ... nor is whether inputs validated "before" the failing one were
+        # already parsed in place (inplace=True)
         return {"called": False,
                 "outcomes": [("raise", e) for errs in rejects for e in errs],
-                "multi_reject": len(rejects) > 1}
+                "multi_reject": len(rejects) > 1 or len(
+                    [1 for n, _ in in_specs if n in ba.arguments]) > 1}
     try:
         res = fn_plain(*ba.args, **ba.kwargs)
         if is_async:
